@@ -55,6 +55,10 @@ type ClientSpec struct {
 	SlidingWindow uint64
 	DialerTFO     bool
 	Extra         J
+
+	// Socks5PortPerAssoc: the harness SOCKS5 upstream gives every UDP association its own relay
+	// port (closed when the association's TCP connection ends), as most SOCKS5 servers do.
+	Socks5PortPerAssoc bool
 }
 
 // UpAddr is the address of the harness upstream as configured in the relay.
